@@ -501,5 +501,6 @@ EXPLANATION = (
     "pass of digital_rf_create_rf_data_index add a row under the same predicates. R6 (= C04.R3): the file's capacity and the room "
     "left in it are differences of two boundary samples obtained by the ceil helper from the printed name time and that time plus "
     "one file cadence. Does NOT decide index row contents.")
+TECHNIQUE = ('clang JSON AST + Python ast; attribute table extraction through forwarding helpers and 4-way comparison; truth-table equivalence of the two index passes; write-once field stores; glob/regex language inclusion')
 ASSUMPTIONS = ["HDF5 attribute API semantics", "clang 14 AST and CPython ast are faithful"]
 FILES = [C_LIB, "python/digital_rf/digital_rf_hdf5.py", "python/digital_rf/list_drf.py"]
